@@ -57,3 +57,15 @@ package bandersnatch
 //@ prelude field
 //@ ensures result == p && p.X == fp_neg(old(p1.X)) && p.Y == old(p1.Y) && p.T == fp_neg(old(p1.T))
 //@ modifies *p
+
+// ---- variable-base MSM (C09 is not discharged): the bucket-method function itself is the assumption the verifiers' sums
+// (C02) rest on; its callers banderwagon.Element.MultiExp (incl. the batch conversion to affine) and ipa.MultiScalar are proved.
+//@ func MultiExp
+//@ props C02
+//@ assumed variable-base multi-scalar multiplication (gnark-crypto's bucket method adapted to Bandersnatch: goroutines per chunk, channels, batch-affine additions): for valid affine points and scalars given in Montgomery form it stores sum_k scalars[k]*points[k] in *p, and it fails exactly on a length mismatch, before writing anything; C09 is not discharged by this framework
+//@ prelude field fieldlemmas group bytes bytesint bytesbridge curve frint bary ipa ipaspec bnorm msmaffine
+//@ requires validAVec(points) && config.ScalarsMont
+//@ ensures err != nil <==> len(points) != len(scalars)
+//@ ensures err == nil ==> result0 == p && validP(*p) && gelP(*p) == old(gsumA(points, scalars, len(points)))
+//@ ensures err != nil ==> *p == old(*p)
+//@ modifies *p
